@@ -506,6 +506,16 @@ func (vc *VC) termInstances(needed map[string]bool, hyps []string, goal string, 
 					}
 				}
 			}
+			for c := range cands {
+				// a candidate built from an offset that mentions another bound variable of this
+				// quantifier would leave that variable free after substitution
+				for _, ob := range bs {
+					if strings.Contains(c, ob.name) {
+						delete(cands, c)
+						break
+					}
+				}
+			}
 			ks := sortedKeys(cands)
 			// most relevant first: terms over the goal's skolem constants, then shorter terms
 			sort.SliceStable(ks, func(a, b int) bool {
